@@ -1504,3 +1504,156 @@ Proof.
   intros k v Hk Hgv Hlv. destruct (Hall k v Hk Hgv Hlv) as [Hin Hst].
   unfold waitingb. rewrite Hin. destruct Hst as [-> | ->]; reflexivity.
 Qed.
+
+(** * emulator: the whole work-group completes *)
+
+(** between rounds: a wavefront has ended, or it is not at a barrier and its
+    remaining program contains an s_endpgm *)
+Definition ewf_ok (w : ewf) : Prop :=
+  e_completed w = true \/ (e_atbarrier w = false /\ In SEnd (e_prog w)).
+Definition ewf_mid (w : ewf) : Prop :=
+  e_completed w = true \/ (e_atbarrier w = true /\ In SEnd (e_prog w)).
+
+(** remaining work: segments left in the programs of the wavefronts still alive *)
+Definition emeasure (l : list ewf) : nat :=
+  fold_right (fun w n => (if e_completed w then 0 else length (e_prog w)) + n) 0 l.
+
+Lemma emeasure_cons w l :
+  emeasure (w :: l) = (if e_completed w then 0 else length (e_prog w)) + emeasure l.
+Proof. reflexivity. Qed.
+
+Lemma run_all_ok j l :
+  Forall ewf_ok l ->
+  exists l1 lg, run_all j l = (l1, lg, false) /\ Forall ewf_mid l1 /\
+    emeasure l1 <= emeasure l /\ (forallb e_completed l = false -> emeasure l1 < emeasure l).
+Proof.
+  revert j; induction l; intros j HF; simpl.
+  - exists [], []. repeat split; auto. discriminate.
+  - inversion HF; subst. destruct (IHl (S j) H2) as (r1 & lg1 & E & F1 & M1 & M2). rewrite E.
+    destruct (e_completed a) eqn:Ec.
+    + exists (a :: r1), lg1. split; auto. split; [constructor; auto; left; auto|].
+      rewrite !emeasure_cons, Ec. simpl. split; auto.
+    + destruct H1 as [H1|[Hb Hin]]; [congruence|].
+      destruct (e_prog a) as [|[|] p] eqn:Ep; [destruct Hin| |].
+      * destruct Hin as [Hin|Hin]; [discriminate|].
+        eexists _, _. split; eauto. split; [constructor; auto; right; simpl; auto|].
+        rewrite !emeasure_cons, ?Ec, ?Ep. simpl. split; [lia|]. intros _. lia.
+      * eexists _, _. split; eauto. split; [constructor; auto; left; auto|].
+        rewrite !emeasure_cons, ?Ec, ?Ep. simpl. split; [lia|]. intros _. lia.
+Qed.
+
+Definition unbar (w : ewf) : ewf :=
+  if true && e_completed w then w else mkEwf (e_prog w) (e_completed w) false.
+
+Lemma unbar_completed w : e_completed (unbar w) = e_completed w.
+Proof. unfold unbar. destruct (e_completed w) eqn:E; simpl; auto. Qed.
+Lemma unbar_prog w : e_prog (unbar w) = e_prog w.
+Proof. unfold unbar. destruct (e_completed w) eqn:E; simpl; auto. Qed.
+Lemma unbar_ok w : ewf_mid w -> ewf_ok (unbar w).
+Proof.
+  unfold unbar, ewf_mid, ewf_ok. destruct (e_completed w) eqn:E; simpl; [left; auto|].
+  intros [?|[_ Hin]]; [discriminate|right; auto].
+Qed.
+Lemma emeasure_unbar l : emeasure (map unbar l) = emeasure l.
+Proof.
+  induction l; auto. cbn [map]. rewrite !emeasure_cons, unbar_completed, unbar_prog. congruence.
+Qed.
+
+Lemma resolve_ok l1 :
+  Forall ewf_mid l1 ->
+  exists l2, resolve true l1 = Some l2 /\ Forall ewf_ok l2 /\ emeasure l2 = emeasure l1 /\
+    map e_completed l2 = map e_completed l1 /\ map e_prog l2 = map e_prog l1.
+Proof.
+  intros HF. unfold resolve. destruct (forallb e_completed l1) eqn:Ea.
+  - exists l1. repeat split; auto. rewrite forallb_forall in Ea. apply Forall_forall.
+    intros w Hin. left; auto.
+  - assert (Hb : forallb (fun w => true && e_completed w || e_atbarrier w) l1 = true).
+    { apply forallb_forall. intros w Hin. rewrite Forall_forall in HF.
+      destruct (HF w Hin) as [-> |[-> _]]; simpl; auto. apply orb_true_r. }
+    rewrite Hb. exists (map unbar l1). split; [reflexivity|]. split; [|split; [|split]].
+    + rewrite Forall_forall in *. intros w Hin. apply in_map_iff in Hin as (w0 & <- & Hin0).
+      apply unbar_ok; auto.
+    + apply emeasure_unbar.
+    + rewrite map_map. apply map_ext. apply unbar_completed.
+    + rewrite map_map. apply map_ext. apply unbar_prog.
+Qed.
+
+Lemma run_wg_completes fuel : forall l,
+  Forall ewf_ok l -> emeasure l < fuel ->
+  exists lg, run_wg true fuel l = (EOk, lg).
+Proof.
+  induction fuel; intros l HF Hm; [lia|]. simpl.
+  destruct (forallb e_completed l) eqn:Ea; [eauto|].
+  destruct (run_all_ok 0 l HF) as (l1 & lg & E & F1 & M1 & M2). rewrite E.
+  destruct (resolve_ok l1 F1) as (l2 & R & F2 & M3 & _). rewrite R.
+  specialize (M2 Ea).
+  destruct (IHfuel l2 F2) as (lg2 & E2); [lia|]. rewrite E2. eauto.
+Qed.
+
+Lemma emeasure_init progs :
+  emeasure (emu_init progs) = fold_right (fun p n => length p + n) 0 progs.
+Proof. induction progs; simpl; auto. Qed.
+
+(** EOk is returned only when every wavefront is Completed *)
+Lemma run_wg_ok_log fuel : forall l lg,
+  run_wg true fuel l = (EOk, lg) ->
+  forall j w, nth_error l j = Some w -> e_completed w = false -> In (LEnd j) lg.
+Proof.
+  induction fuel; intros l lg H j w Hj Hc; simpl in H.
+  - destruct (forallb e_completed l) eqn:Ea; [|discriminate].
+    rewrite forallb_forall in Ea. rewrite (Ea w) in Hc; [discriminate|eapply nth_error_In; eauto].
+  - destruct (forallb e_completed l) eqn:Ea.
+    { rewrite forallb_forall in Ea. rewrite (Ea w) in Hc; [discriminate|eapply nth_error_In; eauto]. }
+    destruct (run_all 0 l) as [[l1 lg1] cr] eqn:E. destruct cr; [discriminate|].
+    destruct (resolve true l1) as [l2|] eqn:R; [|discriminate].
+    destruct (run_wg true fuel l2) as [r lg2] eqn:E2. inversion H; subst r lg; clear H.
+    rewrite in_app_iff.
+    (* what the round did to wavefront j *)
+    assert (Hround : forall j0 l l1 lg1, run_all j0 l = (l1, lg1, false) ->
+              forall k w, nth_error l k = Some w -> e_completed w = false ->
+              In (LEnd (j0 + k)) lg1 \/ exists w1, nth_error l1 k = Some w1 /\ e_completed w1 = false).
+    { clear. intros j0 l. revert j0. induction l; intros j0 l1 lg1 H k w Hk Hc; [destruct k; discriminate|].
+      simpl in H. destruct (run_all (S j0) l) as [[r' lg'] cr'] eqn:E.
+      destruct k; simpl in Hk.
+      - inversion Hk; subst a. rewrite Hc in H. destruct (e_prog w) as [|[|] p]; inversion H; subst.
+        + right. eexists; split; simpl; eauto.
+        + left. rewrite Nat.add_0_r. simpl; auto.
+      - assert (Hcr : cr' = false).
+        { destruct (e_completed a); [inversion H; auto|]. destruct (e_prog a) as [|[|] p]; inversion H; auto. }
+        subst cr'. destruct (IHl (S j0) r' lg' E k w Hk Hc) as [Hin|(w1 & H1 & Hc1)].
+        + left. replace (j0 + S k) with (S j0 + k) by lia.
+          destruct (e_completed a); [inversion H; subst; auto|].
+          destruct (e_prog a) as [|[|] p]; inversion H; subst; simpl; auto.
+        + right. exists w1. split; auto.
+          destruct (e_completed a); [inversion H; subst; auto|].
+          destruct (e_prog a) as [|[|] p]; inversion H; subst; simpl; auto. }
+    destruct (Hround 0 l l1 lg1 E j w Hj Hc) as [Hin|(w1 & H1 & Hc1)]; [left; auto|right].
+    (* resolve keeps the completed flags *)
+    assert (exists w2, nth_error l2 j = Some w2 /\ e_completed w2 = false) as (w2 & H2 & Hc2).
+    { unfold resolve in R. destruct (forallb e_completed l1); [inversion R; subst; eauto|].
+      destruct (forallb _ l1); [|discriminate]. inversion R; subst.
+      rewrite nth_error_map, H1. simpl. eexists; split; eauto.
+      rewrite Hc1. simpl. auto. }
+    eapply IHfuel; eauto.
+Qed.
+
+(** runWG completes every work-group whose wavefronts all end eventually:
+    with fuel 1 + total number of segments the loop terminates normally (no
+    panic, no wavefront running off its program), and every wavefront has
+    logged its s_endpgm. *)
+Lemma emu_completes progs :
+  (forall p, In p progs -> In SEnd p) ->
+  exists lg, emu_run true progs = (EOk, lg) /\
+    forall j, j < length progs -> In (LEnd j) lg.
+Proof.
+  intros Hwf. unfold emu_run.
+  assert (HF : Forall ewf_ok (emu_init progs)).
+  { apply Forall_forall. intros w Hin. unfold emu_init in Hin. apply in_map_iff in Hin as (p & <- & Hp).
+    right; simpl; auto. }
+  destruct (run_wg_completes (emu_fuel progs) (emu_init progs) HF) as (lg & E).
+  { rewrite emeasure_init. unfold emu_fuel. lia. }
+  exists lg. split; auto. intros j Hj.
+  destruct (nth_error progs j) as [p|] eqn:Ep; [|apply nth_error_None in Ep; lia].
+  eapply run_wg_ok_log with (w := mkEwf p false false); eauto.
+  unfold emu_init. rewrite nth_error_map, Ep. reflexivity.
+Qed.
